@@ -74,7 +74,8 @@ EndTx(i) ==
   /\ s.intx /\ (KeepHist => Len(hist) % TxEvery = 0)
   /\ \E op \in {"Finalise", "IntermediateRoot"} :
        /\ op \in Ops
-       /\ tw' = [tw EXCEPT ![i] = [s |-> Finalise(s), b |-> AfterFinalise(tw[i].b, s)]]
+       /\ tw' = [tw EXCEPT ![i] = [s |-> IF op = "Finalise" THEN Finalise(s) ELSE IntermediateRoot(s),
+                                    b |-> AfterFinalise(tw[i].b, s)]]
        /\ act' = [op |-> op, t |-> i] /\ Label(act', tw') /\ UNCHANGED <<disk, ncommit>>
 
 (* Commit: Finalise whatever is pending, write, continue on the new root *)
